@@ -17,8 +17,12 @@ thread) contributes one `Pass` record per trip round the loop and is not restric
                                   outcome: its value, or its own exception `e`, for every `e : Exc`
   * `C20_wait_outcome` / `C20_execute_outcome` / `C20_execute_sync_outcome`
                                   in every environment the call ends with the coroutine's outcome, a TimeoutError made by an
-                                  expired wait (and then a pass really saw the slice expire with the future done, or the deadline
-                                  reached), or StateError (and then the thread was seen dead), or ValueError for a non-coroutine
+                                  expired wait (and then a pass really saw the slice expire, the future NOT done and the caller's
+                                  deadline reached), or StateError (and then the thread was seen dead), or ValueError for a non-coroutine
+  * `C20_wait_untimed_never_expiry` / `C20_execute_untimed_never_expiry` / `C20_execute_sync_never_expiry` / `C20_untimed_value_comes_back`
+                                  (since /repo ea90e75) a call without a caller-side timeout never ends with the expiry of a slice:
+                                  a coroutine that returned a value gets it returned; the pre-repair semantics and its lost result
+                                  are kept in `Witness/C20Raise.lean`
   * `C20_wait_terminates`         any infinite environment in which the future eventually completes, or the deadline is eventually
                                   reached, or the thread is eventually seen dead: `_wait_for` returns after finitely many passes
 -/
@@ -37,11 +41,19 @@ theorem C20_wait_continues_iff (fin : Fin) (p : Pass) : (passStep fin p).isSome 
     | returned => simp [deliver]
     | raised e => cases e <;> simp [deliver, Exc.isTimeout]
 
-theorem passStep_completes (fin : Fin) (p : Pass) (h : p.completes = true) : passStep fin p = some (deliver fin) := by
+/-- the future is done by the end of the slice or at the handler's check: the pass hands out the future's OWN outcome -/
+theorem passStep_done (fin : Fin) (p : Pass) (h : p.completes = true ∨ p.doneAtCheck = true) :
+    passStep fin p = some (deliver fin) := by
   unfold passStep
-  cases fin with
-  | returned => simp [h, deliver]
-  | raised e => cases e <;> simp [h, deliver, Exc.isTimeout]
+  cases hc : p.completes
+  · have hd : p.doneAtCheck = true := by rcases h with h | h <;> simp_all
+    simp [hd, Exc.isTimeout]
+  · cases fin with
+    | returned => simp [deliver]
+    | raised e => cases e <;> simp [deliver, Exc.isTimeout]
+
+theorem passStep_completes (fin : Fin) (p : Pass) (h : p.completes = true) : passStep fin p = some (deliver fin) :=
+  passStep_done fin p (Or.inl h)
 
 theorem passStep_quiet (fin : Fin) (p : Pass) (h : p.quiet = true) : passStep fin p = none := by
   have := C20_wait_continues_iff fin p
@@ -50,15 +62,26 @@ theorem passStep_quiet (fin : Fin) (p : Pass) (h : p.quiet = true) : passStep fi
   | none => rfl
   | some r => rw [hs] at this; simp at this; rw [← this] at h; simp at h
 
-/-- **The measure.** If the future completes during pass number `pre.length` (counted from 0), `_wait_for` leaves the loop
-    with some result after at most `pre.length + 1` passes — whatever happened in the earlier passes, whatever follows, and
-    whatever the coroutine's outcome is (its own TimeoutError included: the done future ends the loop). -/
+private theorem pollsIn_quiet (fin : Fin) (p : Pass) (h : p.quiet = true) : pollsIn fin p = 1 := by
+  unfold Pass.quiet Pass.ends at h
+  have hc : p.completes = false := by cases hc : p.completes <;> simp_all
+  have hd : p.doneAtCheck = false := by cases hd : p.doneAtCheck <;> simp_all
+  simp [pollsIn, hc, hd]
+
+theorem pollsIn_le (fin : Fin) (p : Pass) : 1 ≤ pollsIn fin p ∧ pollsIn fin p ≤ 2 := by
+  unfold pollsIn
+  cases p.completes <;> cases fin <;> simp [deliver] <;> split <;> omega
+
+/-- **The measure.** If the future completes during — or is found done in — pass number `pre.length` (counted from 0),
+    `_wait_for` leaves the loop with some result after at most `pre.length + 1` passes — whatever happened in the earlier
+    passes, whatever follows, and whatever the coroutine's outcome is (its own TimeoutError included: the done future
+    ends the loop). -/
 theorem C20_wait_leaves_loop_when_future_completes (fin : Fin) (pre post : List Pass) (p : Pass)
-    (h : p.completes = true) :
+    (h : p.completes = true ∨ p.doneAtCheck = true) :
     (∃ r, waitFor fin (pre ++ p :: post) = some r) ∧ passesUsed fin (pre ++ p :: post) ≤ pre.length + 1 := by
   induction pre with
   | nil =>
-    simp only [List.nil_append, waitFor, passesUsed, passStep_completes fin p h, List.length_nil]
+    simp only [List.nil_append, waitFor, passesUsed, passStep_done fin p h, List.length_nil]
     exact ⟨⟨_, rfl⟩, Nat.le_refl _⟩
   | cons q rest ih =>
     cases hq : passStep fin q with
@@ -69,24 +92,27 @@ theorem C20_wait_leaves_loop_when_future_completes (fin : Fin) (pre post : List 
       simp only [List.cons_append, waitFor, passesUsed, hq, List.length_cons]
       exact ⟨ih.1, by have := ih.2; omega⟩
 
-/-- **The underlying error comes out.** Quiet passes, then the future completes: `_wait_for` hands out exactly the
-    coroutine's outcome — its value, or `e` for every exception class `e` (TimeoutError, a subclass of it, CancelledError,
-    StateError, EndOfQueue, ValueError, any Exception, any BaseException) — in the pass in which it completed. -/
+/-- **The future's own outcome comes out.** Quiet passes, then the future completes within a slice *or is found done right
+    after a slice expired*: `_wait_for` hands out exactly the coroutine's outcome — its value, or `e` for every exception
+    class `e` (TimeoutError, a subclass of it, CancelledError, StateError, EndOfQueue, ValueError, any Exception, any
+    BaseException) — in that pass, with at most one `future.result` call more than passes. -/
 theorem C20_wait_raises_the_coroutines_error (fin : Fin) (pre post : List Pass) (p : Pass)
-    (hq : ∀ q ∈ pre, q.quiet = true) (h : p.completes = true) :
-    waitFor fin (pre ++ p :: post) = some (deliver fin) ∧ passesUsed fin (pre ++ p :: post) = pre.length + 1 := by
+    (hq : ∀ q ∈ pre, q.quiet = true) (h : p.completes = true ∨ p.doneAtCheck = true) :
+    waitFor fin (pre ++ p :: post) = some (deliver fin) ∧ passesUsed fin (pre ++ p :: post) = pre.length + 1 ∧
+    pollsUsed fin (pre ++ p :: post) = pre.length + pollsIn fin p := by
   induction pre with
-  | nil => simp [waitFor, passesUsed, passStep_completes fin p h]
+  | nil => simp [waitFor, passesUsed, pollsUsed, passStep_done fin p h]
   | cons q rest ih =>
     have hq' := passStep_quiet fin q (hq q (by simp))
+    have hp := pollsIn_quiet fin q (hq q (by simp))
     have := ih (fun x hx => hq x (by simp [hx]))
-    simp only [List.cons_append, waitFor, passesUsed, hq', List.length_cons, this.1, this.2, true_and]
+    simp only [List.cons_append, waitFor, passesUsed, pollsUsed, hq', hp, List.length_cons, this.1, this.2.1, this.2.2, true_and]
     omega
 
 /-- the same seen from the caller of `execute` (thread alive at the call, a coroutine was passed; the future, done in that
     pass, is still done in `execute`'s handler) -/
 theorem C20_execute_raises_the_coroutines_error (fin : Fin) (pre post : List Pass) (p : Pass)
-    (hq : ∀ q ∈ pre, q.quiet = true) (h : p.completes = true) :
+    (hq : ∀ q ∈ pre, q.quiet = true) (h : p.completes = true ∨ p.doneAtCheck = true) :
     execute true true fin (pre ++ p :: post) true = some (deliver fin) := by
   unfold execute
   rw [(C20_wait_raises_the_coroutines_error fin pre post p hq h).1]
@@ -96,17 +122,17 @@ theorem C20_execute_raises_the_coroutines_error (fin : Fin) (pre post : List Pas
 
 /-- … and of `execute_sync` (the callable's exception travels through the `_bridge` coroutine) -/
 theorem C20_execute_sync_raises_the_callables_error (fin : Fin) (pre post : List Pass) (p : Pass)
-    (hq : ∀ q ∈ pre, q.quiet = true) (h : p.completes = true) :
+    (hq : ∀ q ∈ pre, q.quiet = true) (h : p.completes = true ∨ p.doneAtCheck = true) :
     executeSync true true true fin (pre ++ p :: post) true = some (deliver fin) := by
   unfold executeSync
   simpa using C20_execute_raises_the_coroutines_error fin pre post p hq h
 
-/-- **What can come out of `_wait_for`, in any environment**: the coroutine's outcome; a TimeoutError of an expired wait —
-    only if some pass saw its slice expire and then the future done or the deadline reached; StateError — only if some pass
-    saw the thread dead with the future pending. -/
+/-- **What can come out of `_wait_for`, in any environment**: the coroutine's outcome — and then a pass found the future
+    done; a TimeoutError of an expired wait — only if some pass saw its slice expire, the future NOT done, and the caller's
+    deadline reached; StateError — only if some pass saw the thread dead with the future pending. -/
 theorem C20_wait_outcome (fin : Fin) (ps : List Pass) (r : Res) (h : waitFor fin ps = some r) :
-    r = deliver fin ∨
-    (r = .raised .expiry ∧ ∃ p ∈ ps, p.completes = false ∧ (p.doneAtCheck = true ∨ p.deadline = true)) ∨
+    (r = deliver fin ∧ ∃ p ∈ ps, p.completes = true ∨ p.doneAtCheck = true) ∨
+    (r = .raised .expiry ∧ ∃ p ∈ ps, p.completes = false ∧ p.doneAtCheck = false ∧ p.deadline = true) ∨
     (r = .raised .state ∧ ∃ p ∈ ps, p.completes = false ∧ p.alive = false ∧ p.doneAtCheck2 = false) := by
   induction ps with
   | nil => simp [waitFor] at h
@@ -115,32 +141,42 @@ theorem C20_wait_outcome (fin : Fin) (ps : List Pass) (r : Res) (h : waitFor fin
     cases hp : passStep fin p with
     | none =>
       rw [hp] at h
-      rcases ih h with h1 | ⟨h1, q, hq, h2⟩ | ⟨h1, q, hq, h2⟩
-      · exact Or.inl h1
+      rcases ih h with ⟨h1, q, hq, h2⟩ | ⟨h1, q, hq, h2⟩ | ⟨h1, q, hq, h2⟩
+      · exact Or.inl ⟨h1, q, by simp [hq], h2⟩
       · exact Or.inr (Or.inl ⟨h1, q, by simp [hq], h2⟩)
       · exact Or.inr (Or.inr ⟨h1, q, by simp [hq], h2⟩)
     | some r' =>
       rw [hp] at h
       simp only [Option.some.injEq] at h
       subst h
-      cases hc : p.completes
-      · unfold passStep at hp
-        simp only [hc, Bool.false_eq_true, ↓reduceIte, Exc.isTimeout, Bool.false_or] at hp
-        cases hd : p.doneAtCheck
-        · cases hdl : p.deadline
-          · simp only [hd, hdl, Bool.false_eq_true, ↓reduceIte] at hp
-            cases ha : p.alive <;> cases h2 : p.doneAtCheck2 <;> simp [ha, h2] at hp
-            subst hp
-            exact Or.inr (Or.inr ⟨rfl, p, by simp, hc, ha, h2⟩)
-          · simp only [hd, hdl, Bool.false_eq_true, ↓reduceIte, Option.some.injEq] at hp
-            subst hp
-            exact Or.inr (Or.inl ⟨rfl, p, by simp, hc, Or.inr hdl⟩)
-        · simp only [hd, ↓reduceIte, Option.some.injEq] at hp
-          subst hp
-          exact Or.inr (Or.inl ⟨rfl, p, by simp, hc, Or.inl hd⟩)
-      · rw [passStep_completes fin p hc] at hp
+      by_cases hdone : p.completes = true ∨ p.doneAtCheck = true
+      · rw [passStep_done fin p hdone] at hp
         simp only [Option.some.injEq] at hp
-        exact Or.inl hp.symm
+        exact Or.inl ⟨hp.symm, p, by simp, hdone⟩
+      · have hc : p.completes = false := by cases hc : p.completes <;> simp_all
+        have hd : p.doneAtCheck = false := by cases hd : p.doneAtCheck <;> simp_all
+        unfold passStep at hp
+        simp only [hc, hd, Bool.false_eq_true, ↓reduceIte, Exc.isTimeout, Bool.or_self] at hp
+        cases hdl : p.deadline
+        · simp only [hdl, Bool.false_eq_true, ↓reduceIte] at hp
+          cases ha : p.alive <;> cases h2 : p.doneAtCheck2 <;> simp [ha, h2] at hp
+          subst hp
+          exact Or.inr (Or.inr ⟨rfl, p, by simp, hc, ha, h2⟩)
+        · simp only [hdl, ↓reduceIte, Option.some.injEq] at hp
+          subst hp
+          exact Or.inr (Or.inl ⟨rfl, p, by simp, hc, hd, hdl⟩)
+
+/-- **An untimed wait never times out.** Without a caller-side timeout (`deadline is None`: no pass can find a deadline
+    reached) `_wait_for` ends with the coroutine's outcome, or with StateError once the thread was seen dead — the expiry of
+    a slice never comes out (before /repo ea90e75 it did: `Witness/C20Raise`). -/
+theorem C20_wait_untimed_never_expiry (fin : Fin) (ps : List Pass) (r : Res) (hnd : ∀ p ∈ ps, p.deadline = false)
+    (h : waitFor fin ps = some r) :
+    (r = deliver fin ∧ ∃ p ∈ ps, p.completes = true ∨ p.doneAtCheck = true) ∨
+    (r = .raised .state ∧ ∃ p ∈ ps, p.completes = false ∧ p.alive = false ∧ p.doneAtCheck2 = false) := by
+  rcases C20_wait_outcome fin ps r h with h1 | ⟨_, p, hp, _, _, hdl⟩ | h3
+  · exact Or.inl h1
+  · rw [hnd p hp] at hdl; simp at hdl
+  · exact Or.inr h3
 
 /-- the statement's list for `execute`: its result, the underlying error, a timeout error, a state error — and ValueError
     exactly for an argument that is no coroutine -/
@@ -157,7 +193,7 @@ theorem C20_execute_outcome (a0 isCoro : Bool) (fin : Fin) (ps : List Pass) (dh 
       | none => rw [hw] at h; simp at h
       | some r' =>
         rw [hw] at h
-        rcases C20_wait_outcome fin ps r' hw with h1 | ⟨h1, _⟩ | ⟨h1, _⟩
+        rcases C20_wait_outcome fin ps r' hw with ⟨h1, _⟩ | ⟨h1, _⟩ | ⟨h1, _⟩
         · subst h1
           cases fin with
           | returned => simp [deliver] at h; exact Or.inl (by simp [deliver, h.symm])
@@ -174,6 +210,56 @@ theorem C20_execute_outcome (a0 isCoro : Bool) (fin : Fin) (ps : List Pass) (dh 
           simp [Exc.isTimeout] at h
           exact Or.inr (Or.inr (Or.inl h.symm))
 
+/-- **An untimed call never raises a timeout of the executor's making.** `execute(coro)` without `timeout=`, in any
+    environment that is consistent about `done()` (a future found done stays done: `hmono`): the call ends with the
+    coroutine's outcome (its own TimeoutError if that is how it ended), with StateError — and then the executor was not
+    active at the call or was seen dead under it — or with ValueError for a non-coroutine.  Never `.expiry`. -/
+theorem C20_execute_untimed_never_expiry (a0 isCoro : Bool) (fin : Fin) (ps : List Pass) (dh : Bool) (r : Res)
+    (hnd : ∀ p ∈ ps, p.deadline = false)
+    (hmono : (∃ p ∈ ps, p.completes = true ∨ p.doneAtCheck = true) → dh = true)
+    (h : execute a0 isCoro fin ps dh = some r) :
+    r = deliver fin ∨
+    (r = .raised .state ∧ (a0 = false ∨ ∃ p ∈ ps, p.completes = false ∧ p.alive = false ∧ p.doneAtCheck2 = false)) ∨
+    (r = .raised .value ∧ isCoro = false) := by
+  unfold execute at h
+  cases a0
+  · simp at h; exact Or.inr (Or.inl ⟨h.symm, Or.inl rfl⟩)
+  · cases isCoro
+    · simp at h; exact Or.inr (Or.inr ⟨h.symm, rfl⟩)
+    · simp only [Bool.not_true, Bool.false_eq_true, ↓reduceIte] at h
+      cases hw : waitFor fin ps with
+      | none => rw [hw] at h; simp at h
+      | some r' =>
+        rw [hw] at h
+        rcases C20_wait_untimed_never_expiry fin ps r' hnd hw with ⟨h1, hdone⟩ | ⟨h1, hdead⟩
+        · subst h1
+          have hdh := hmono hdone
+          subst hdh
+          cases fin with
+          | returned => simp [deliver] at h; exact Or.inl (by simp [deliver, h.symm])
+          | raised e =>
+            simp only [deliver] at h
+            by_cases ht : e.isTimeout = true
+            · simp [ht] at h; exact Or.inl (by simp [deliver, h.symm])
+            · simp [ht] at h; exact Or.inl (by simp [deliver, h.symm])
+        · subst h1
+          simp [Exc.isTimeout] at h
+          exact Or.inr (Or.inl ⟨h.symm, Or.inr hdead⟩)
+
+/-- **"Returns its result".** An untimed `execute` of a coroutine that returns a value returns that value; the only other
+    way out is StateError with the executor seen dead under the call while the future was still pending. -/
+theorem C20_untimed_value_comes_back (ps : List Pass) (dh : Bool) (r : Res)
+    (hnd : ∀ p ∈ ps, p.deadline = false)
+    (hmono : (∃ p ∈ ps, p.completes = true ∨ p.doneAtCheck = true) → dh = true)
+    (h : execute true true .returned ps dh = some r) :
+    r = .returned ∨ (r = .raised .state ∧ ∃ p ∈ ps, p.completes = false ∧ p.alive = false ∧ p.doneAtCheck2 = false) := by
+  rcases C20_execute_untimed_never_expiry true true .returned ps dh r hnd hmono h with h1 | ⟨h1, h2⟩ | ⟨_, h2⟩
+  · exact Or.inl h1
+  · rcases h2 with h2 | h2
+    · simp at h2
+    · exact Or.inr ⟨h1, h2⟩
+  · simp at h2
+
 theorem C20_execute_sync_outcome (a0 isCallable a1 : Bool) (fin : Fin) (ps : List Pass) (dh : Bool) (r : Res)
     (h : executeSync a0 isCallable a1 fin ps dh = some r) :
     r = deliver fin ∨ r = .raised .expiry ∨ r = .raised .state ∨ (r = .raised .value ∧ isCallable = false) := by
@@ -187,6 +273,23 @@ theorem C20_execute_sync_outcome (a0 isCallable a1 : Bool) (fin : Fin) (ps : Lis
       · exact Or.inl h1
       · exact Or.inr (Or.inl h1)
       · exact Or.inr (Or.inr (Or.inl h1))
+      · simp at h2
+
+/-- `execute_sync` takes no timeout at all: it never raises a timeout of the executor's making -/
+theorem C20_execute_sync_never_expiry (a0 isCallable a1 : Bool) (fin : Fin) (ps : List Pass) (dh : Bool) (r : Res)
+    (hnd : ∀ p ∈ ps, p.deadline = false)
+    (hmono : (∃ p ∈ ps, p.completes = true ∨ p.doneAtCheck = true) → dh = true)
+    (h : executeSync a0 isCallable a1 fin ps dh = some r) :
+    r = deliver fin ∨ r = .raised .state ∨ (r = .raised .value ∧ isCallable = false) := by
+  unfold executeSync at h
+  cases a0
+  · simp at h; exact Or.inr (Or.inl h.symm)
+  · cases isCallable
+    · simp at h; exact Or.inr (Or.inr ⟨h.symm, rfl⟩)
+    · simp only [Bool.not_true, Bool.false_eq_true, ↓reduceIte] at h
+      rcases C20_execute_untimed_never_expiry a1 true fin ps dh r hnd hmono h with h1 | ⟨h1, _⟩ | ⟨_, h2⟩
+      · exact Or.inl h1
+      · exact Or.inr (Or.inl h1)
       · simp at h2
 
 /-- the passes an infinite environment provides up to (not including) pass `n` -/
@@ -250,10 +353,13 @@ private def deadPass : Pass := { completes := false, doneAtCheck := false, deadl
 example : quietPass.quiet = true := by decide
 example : execute true true (.raised .timeout) (List.replicate 6 quietPass ++ [donePass]) true = some (.raised .timeout) := by decide
 example : passesUsed (.raised .timeout) (List.replicate 6 quietPass ++ [donePass, donePass, donePass]) = 7 := by decide
+/-- … with 8 calls of `future.result`: seven sliced ones, and the one in the handler that re-raises the coroutine's own error -/
+example : pollsUsed (.raised .timeout) (List.replicate 6 quietPass ++ [donePass, donePass, donePass]) = 8 := by decide
 example : execute true true (.raised .eoq) [quietPass, donePass] true = some (.raised .eoq) := by decide
 example : execute true true .returned [quietPass, donePass] true = some .returned := by decide
-/-- the slice expired and the future completed before the check: the slice's TimeoutError comes out (allowed by the statement) -/
-example : execute true true .returned [quietPass, racePass] true = some (.raised .expiry) := by decide
+/-- the slice expired and the future completed before the check: the VALUE comes out (before ea90e75: the slice's TimeoutError) -/
+example : execute true true .returned [quietPass, racePass] true = some .returned := by decide
+example : execute true true (.raised .eoq) [quietPass, racePass] true = some (.raised .eoq) := by decide
 /-- the loop stopped under the call -/
 example : execute true true (.raised .timeout) [quietPass, deadPass] false = some (.raised .state) := by decide
 /-- caller-side timeout: the future is cancelled, a fresh TimeoutError -/
